@@ -10,7 +10,7 @@
 
    An edit of those functions in /repo changes Gen_C01.v and re-runs (breaks) these proofs. *)
 From Coq Require Import ZArith String Bool List Lia ZifyBool.
-From Verif Require Import Gen_C01 Walker Meta.
+From Verif Require Import Gen_C01 Wire Walker Meta.
 Import ListNotations.
 Local Open Scope Z_scope.
 
@@ -332,20 +332,47 @@ Example zero_cost_examples :
   = [Some false; Some false; Some false; Some false; Some false; Some false].
 Proof. vm_compute. split; reflexivity. Qed.
 
-Print Assumptions bits2bytes_ceil_spec.
-Print Assumptions bits2bytes_ceil_nat.
-Print Assumptions bits2bytes_ceil_nat_aligned.
-Print Assumptions bits2bytes_ceil_capacity.
-Print Assumptions bits2bytes_ceil_pad8.
-Print Assumptions get_best_fit_spec.
-Print Assumptions to_standard_bit_length_is_std_width.
-Print Assumptions is_std_eq_translated.
-Print Assumptions is_std_iff_fixed_point.
-Print Assumptions saturation_code_iff_not_std.
-Print Assumptions std_width_table_1_64.
-Print Assumptions zero_cost_exact.
-Print Assumptions zero_cost_spec.
-Print Assumptions zero_cost_raises_iff.
-Print Assumptions zero_cost_integer_walker.
-Print Assumptions zero_cost_float_walker.
-Print Assumptions alignment_prefix_spec.
+
+(* ------------------------------------------------------------------------------------------------------------------ *)
+(* the walker's decisions, re-expressed through the translated functions                                              *)
+(* ------------------------------------------------------------------------------------------------------------------ *)
+
+(* what Walker.storage_bits hands to the store primitive for an integer field: the storage width is the translated
+   filter_to_standard_bit_length, and the saturation clamp is applied iff the field is saturated and the translated standard
+   length differs from the width (the `{% if t is saturated and not t.standard_bit_length %}` style decision) *)
+(* the literal the code compares target_endianness with (so that files that do not import String can state the results) *)
+Definition endian_little : string := "little"%string.
+
+Theorem walker_storage_decision_unsigned : forall (w : nat) (sat : bool) (z : Z), (w <= 64)%nat ->
+  filter_to_standard_bit_length (Z.of_nat w) = Some (Z.of_nat (std_width w)) /\
+  storage_bits (PU w sat) (VInt z) =
+    Some (bits_of_N (std_width w)
+            (Z.to_N ((if sat && negb (translated_is_std w) then clampZ 0 (pow2 w - 1) z else z) mod pow2 (std_width w)))).
+Proof.
+  intros w sat z Hw. split; [apply to_standard_bit_length_is_std_width; exact Hw|].
+  cbn [storage_bits]. rewrite <- is_std_eq_translated. reflexivity.
+Qed.
+
+Theorem walker_storage_decision_signed : forall (w : nat) (sat : bool) (z : Z), (w <= 64)%nat ->
+  filter_to_standard_bit_length (Z.of_nat w) = Some (Z.of_nat (std_width w)) /\
+  storage_bits (PS w sat) (VInt z) =
+    Some (bits_of_N (std_width w)
+            (Z.to_N ((if sat && negb (translated_is_std w) then clampZ (- pow2 (w - 1)) (pow2 (w - 1) - 1) z else z)
+                     mod pow2 (std_width w)))).
+Proof.
+  intros w sat z Hw. split; [apply to_standard_bit_length_is_std_width; exact Hw|].
+  cbn [storage_bits]. rewrite <- is_std_eq_translated. reflexivity.
+Qed.
+
+(* the "zero cost" (bulk memmove) treatment the templates give an integer field is sound for the walker exactly when the code
+   says so: zero cost => no saturation code is emitted and the storage object is as wide as the field *)
+Theorem zero_cost_means_plain_copy : forall e w sat,
+  is_zero_cost_primitive e (desc_of_prim (PU w sat)) = Some true ->
+  e = "little"%string /\ std_width w = w /\ sat && negb (is_std w) = false.
+Proof.
+  intros e w sat H. destruct (zero_cost_integer_walker e w sat) as [Hu _]. rewrite Hu in H.
+  injection H as H. apply andb_prop in H. destruct H as [He Hs]. split; [apply String.eqb_eq; exact He|].
+  split; [|rewrite Hs; destruct sat; reflexivity].
+  rewrite is_std_fixes_std_width in Hs. apply Nat.eqb_eq. exact Hs.
+Qed.
+(* Print Assumptions for the statements used by the property is done in Properties/C01.v *)
